@@ -13,7 +13,7 @@ def main(argv):
     path, fn, mode, g, limit = argv
     g = None if g == '-' else int(g)
     limit = None if limit == '-' else int(limit)
-    out = {'lines': [], 'quit': False, 'saves': 0, 'error': None, 'noload': False}
+    out = {'lines': [], 'quit': False, 'saves': [], 'error': None, 'noload': False}
     try:
         if mode == 'new':
             pcfg = ptq.load_pcfg(path, save_file=fn)
@@ -26,7 +26,7 @@ def main(argv):
                 return 0
             pcfg = ptq.load_pcfg(path, save_file=fn, skip_brute=info.get('skip_brute', False), skip_case=info.get('skip_case', False))
             r = session.run_session(pcfg, cfg, fn, load=True, quit_at_guess=g, limit=limit)
-        out.update(lines=r['lines'], quit=bool(r['quit']), saves=len(r['saves']) if isinstance(r['saves'], list) else int(r['saves']),
+        out.update(lines=r['lines'], quit=bool(r['quit']), saves=list(r['saves']),
                    error=r.get('error'))
     except Exception as ex:
         out['error'] = repr(ex)
